@@ -286,6 +286,23 @@ class Verifier(Engine):
                 self.check_raise(fx, c, payload, s, entry)
             else:
                 raise CheckerError("break/continue escaped function body")
+        if not c.opts.get("block"):
+            # reachability report (vacuity aid): `return` statements of the function that no explored path reaches - excluded by the
+            # precondition (fine, but it should be what the contract intends) or cut off by an infeasible state
+            def returns_of(node, out):
+                for ch in ast.iter_child_nodes(node):
+                    if isinstance(ch, (ast.FunctionDef, ast.AsyncFunctionDef, ast.Lambda, ast.ClassDef)):
+                        continue
+                    if isinstance(ch, ast.Return):
+                        out.append(ch.lineno)
+                    returns_of(ch, out)
+                return out
+            unreached = sorted(set(returns_of(fsrc.node, [])) - getattr(fx, "reached_returns", set()))
+            if unreached:
+                rec["unreached_returns"] = unreached
+                allowed = set(c.opts.get("unreached_ok", []))
+                if allowed != "*" and not set(unreached) <= set(allowed) and c.opts.get("unreached_ok") != "*":
+                    rec["unreached_returns_note"] = "not listed in the contract's `unreached_ok` (reported, not an error)"
         rec["obligations"] = fx.nobl
         if fx.nobl == 0:
             raise CheckerError("zero obligations generated for %s" % c.func)
@@ -530,6 +547,7 @@ class Verifier(Engine):
         return outs + [(NORMAL, None, st)]
 
     def st_Return(self, s, st, fx):
+        fx.reached_returns = getattr(fx, "reached_returns", set()) | {s.lineno}
         ec = self.new_ec(st, fx)
         val = self.mat(self.ev(s.value, ec), ec) if s.value is not None else tV(V.none)
         outs, st = self.finish(ec, st, fx, s.lineno)
@@ -1084,6 +1102,10 @@ class Verifier(Engine):
                 raise OutOfSubset("range with step")
             n = z3.If(hi > lo, hi - lo, 0)
             return n, (lambda i: T("i", lo + i))
+        if isinstance(it, ast.Call) and isinstance(it.func, ast.Name) and it.func.id == "zip" and len(it.args) == 2 and "zip" not in st.env:
+            n1, get1 = self.iter_domain(it.args[0], ec, line)
+            n2, get2 = self.iter_domain(it.args[1], ec, line)
+            return z3.If(n1 <= n2, n1, n2), (lambda i: ("tuple", [get1(i), get2(i)]))
         if isinstance(it, ast.Call) and isinstance(it.func, ast.Name) and it.func.id == "enumerate":
             n, get = self.iter_domain(it.args[0], ec, line)
 
